@@ -3,7 +3,7 @@
     [Print Assumptions]. *)
 From Coq Require Import List ZArith.
 From Webp Require Import Anim.Blend Anim.Canvas Anim.AnimDec Anim.AnimEncModel Anim.AnimEncSpec
-  Anim.AnimEncLemmas Anim.AnimEncProofs Anim.AnimEncMain Anim.AnimEncWitness.
+  Anim.AnimEncLemmas Anim.AnimEncProofs Anim.AnimEncMain Anim.AnimEncWitness Anim.AnimEncLoops.
 From WebpGen Require Consts.
 Import ListNotations.
 Open Scope Z_scope.
@@ -50,6 +50,14 @@ Theorem C08_changed_rect_covers_diff : forall W H prev curr x y,
 Proof. exact changed_rect_covers_diff. Qed.
 Print Assumptions C08_changed_rect_covers_diff.
 
+(** findChangedRect as the code runs it (first / last differing row, then the progressive
+    narrowing loop over the changed rows with its early exit) computes the declarative
+    bounding box the theorems above are stated about. *)
+Theorem C08_find_changed_rect_loops_eq : forall W H prev curr,
+  0 <= W -> find_changed_rect_loops W H prev curr = find_changed_rect W H prev curr.
+Proof. exact find_changed_rect_loops_eq. Qed.
+Print Assumptions C08_find_changed_rect_loops_eq.
+
 (** snapToEven + clipping: still inside the canvas, non-empty, covers the changed
     rectangle, and both offsets are even (so that the container's halved offsets
     read back exactly). *)
@@ -84,12 +92,43 @@ Theorem C08_anim_lossless_roundtrip_refuted_filler :
 Proof. exact anim_lossless_roundtrip_refuted_filler. Qed.
 Print Assumptions C08_anim_lossless_roundtrip_refuted_filler.
 
+(** AddFrame calls may fail: a failing frame encoder at any chosen calls ([fails]: the first
+    encodeFrame of a step, the dispose-background candidate, the key-frame candidate, the
+    re-encode inside encodeKeyframe) and the muxer's frame limit ([maxf], any value).  The
+    file then plays back exactly the frames of the AddFrame calls that returned nil
+    ([acc]), with their display times; a refused call leaves the animation as it was. *)
+Theorem C08_anim_error_roundtrip :
+  forall (rt_ll rt_ly : img -> img) (W H : Z) (opts : eopts) (frames : list (img * Z))
+         (oracle : nat -> orc) (fails : nat -> efail) (maxf : Z) (has_meta simple : bool)
+         (st0 stf : est) (acc : list (img * Z)) (out : output),
+    codec_lossless rt_ll ->
+    wf_canvas_dims W H -> lossless_opts opts -> Forall wf_input frames ->
+    new_encoder W H opts = Some st0 ->
+    run_e repaired true maxf oracle fails st0 frames = (stf, acc) ->
+    close has_meta simple stf = Some out ->
+    same_show W H (eo_loop opts) out (playback rt_ll rt_ly repaired out) (inputs_of W H acc).
+Proof. exact anim_error_roundtrip. Qed.
+Print Assumptions C08_anim_error_roundtrip.
+
+(** The earlier order of operations (cap the previous frame's duration, then encode the
+    overflow filler; before commit 60cfee7) does not have this property. *)
+Theorem C08_anim_error_roundtrip_refuted_cap_first : ~ anim_error_roundtrip_statement false.
+Proof. exact anim_error_roundtrip_refuted_cap_first. Qed.
+Print Assumptions C08_anim_error_roundtrip_refuted_cap_first.
+
+Theorem C08_example_failed_addframe :
+  w4_show true = Some ([(mkimg 1 1 [R], 10); (mkimg 1 1 [G], 16777210)],
+                       [([R], 10); ([G], 16777210)]).
+Proof. exact w4_kept. Qed.
+Print Assumptions C08_example_failed_addframe.
+
 (** Tie to the source: the limits the model uses are the constants of the code
     (regenerated on every run). *)
 Theorem C08_limits_match_source :
   max_duration = WebpGen.Consts.animation_maxDuration /\
   max_loop_count = WebpGen.Consts.animation_maxLoopCount /\
   max_canvas_dimension = WebpGen.Consts.animation_maxCanvasDimension /\
-  max_duration = WebpGen.Consts.mux_maxDuration.
+  max_duration = WebpGen.Consts.mux_maxDuration /\
+  max_frames = WebpGen.Consts.container_MaxFrames.
 Proof. repeat split; reflexivity. Qed.
 Print Assumptions C08_limits_match_source.
